@@ -2,16 +2,16 @@ SPECIFICATION Spec
 CONSTANTS
   HashOf <- mcHash
   KLenOf <- mcKLen
-  KeySet <- mcKeys3
+  KeySet <- mcKeys1
   TimeSet = {1, 2}
-  VLens = {0, 4}
-  MaxOff = 3
+  VLens = {4}
+  MaxOff = 7
   MaxBatch = 2
   MaxSets = 2
-  Rollovers = {60, 1000}
+  Rollovers = {50, 1000}
   Versions = {2}
   KeyIndex = FALSE
-  TimeIndex = FALSE
+  TimeIndex = TRUE
   OptKeep <- FF
   OptEager <- FF
   OptCheck <- FF
@@ -20,5 +20,5 @@ CONSTANTS
   AllowRmIndex = FALSE
   AllowMigrate = FALSE
 VIEW view
-INVARIANTS Fidelity CompactUpdatesInv CompactDeletesInv
+INVARIANTS Fidelity FindOffsetInv FindCountInv FindSizeInv FindAgeInv
 CHECK_DEADLOCK FALSE
